@@ -1,10 +1,10 @@
 SPECIFICATION Spec
 CONSTANTS
-  Hs <- L_H
+  Hs <- L_H4
   Ms <- L_M2
-  Ks <- L_K2
-  Bs <- L_B3
-  Fs <- L_F2
+  Ks <- L_K1
+  Bs <- L_B2
+  Fs <- L_F1
   Q0s <- L_Q3
   V0s <- L_V3
   W0s <- L_W
@@ -17,9 +17,10 @@ CONSTANTS
   Actuations <- L_Bool
   GroupOns <- L_Bool
   Acts <- L_ActsA
-  MaxSteps = 2
+  MaxSteps = 1
+  MaxOff = 2
   Variant = "doc"
-  Bound = 4096
+  Bound = 1024
   BoundRK = 64
 VIEW ViewNoEv
 INVARIANT TypeOK
